@@ -249,3 +249,55 @@ def finish(pid, violations, known_fired=()):
         sys.exit(1)
     print('OK property=%s' % pid)
     sys.exit(0)
+
+
+# ----------------------------------------------------------------------------- line-oriented drivers
+def run_line_cases(drv, lines, out, extra_args=(), timeout=1200, nchunk=None):
+    """Split `lines` (one case per line) over NCPU chunk files, run `drv <cases> <trace> [from]` on each, restarting
+    after a crash at the line following the crashed one (the driver logs {"e":"Case","ln":k} and flushes before
+    each case).  Returns (trace_files, line_of[(chunk, ln)] -> original index, crashes[(orig index, rc, output)])."""
+    import concurrent.futures as cfu
+    nchunk = nchunk or NCPU
+    chunks = [[] for _ in range(nchunk)]
+    for i, ln in enumerate(lines):
+        chunks[i % nchunk].append((i, ln))
+    jobs = []
+    for ci, ch in enumerate(chunks):
+        if not ch:
+            continue
+        cfile = os.path.join(out, 'cases-%02d.txt' % ci)
+        with open(cfile, 'w') as f:
+            f.write('\n'.join(l for _, l in ch) + '\n')
+        jobs.append((ci, cfile, os.path.join(out, 'trace-%02d.ndjson' % ci), [i for i, _ in ch]))
+
+    def one(job):
+        ci, cfile, tfile, idx = job
+        frm, res = 0, []
+        for _attempt in range(60):
+            rc, o = run_driver(drv, [cfile, tfile] + list(extra_args) + ([str(frm)] if frm else []), timeout=timeout)
+            reps = sanitizer_reports(o)
+            if rc == 0 and not reps:
+                break
+            last = None
+            try:
+                with open(tfile, 'rb') as f:
+                    data = f.read()
+                if not data.endswith(b'\n'):
+                    data = data[:data.rfind(b'\n') + 1]
+                for line in data.splitlines():
+                    if line.startswith(b'{"e":"Case"'):
+                        last = json.loads(line)['ln']
+                with open(tfile, 'wb') as f:
+                    f.write(data + b'{"e":"Crash"}\n')
+            except Exception:
+                pass
+            res.append((idx[last - 1] if last else -1, rc, o[-6000:]))
+            if rc == 0 or last is None or last >= len(idx):
+                break
+            frm = last
+        return res
+    crashes = []
+    with cfu.ThreadPoolExecutor(max_workers=NCPU) as ex:
+        for r in ex.map(one, jobs):
+            crashes += r
+    return [j[2] for j in jobs], {(j[2], k + 1): orig for j in jobs for k, orig in enumerate(j[3])}, crashes
